@@ -12,6 +12,7 @@ import (
 	"testing"
 	"time"
 
+	"github.com/btcsuite/btcd/btcec/v2"
 	"github.com/lightninglabs/lightning-node-connect/mailbox"
 )
 
@@ -442,6 +443,32 @@ func (c *cutConn) Write(p []byte) (int, error) {
 	return len(p), nil
 }
 
+// gatedConn lets the handshake write, and read the acts that come before its first own write; every Read after
+// its first Write waits until the gate is opened.
+type gatedConn struct {
+	*memConn
+	gate   chan struct{}
+	mu     sync.Mutex
+	writes int
+}
+
+func (g *gatedConn) Write(p []byte) (int, error) {
+	g.mu.Lock()
+	g.writes++
+	g.mu.Unlock()
+	return g.memConn.Write(p)
+}
+
+func (g *gatedConn) Read(p []byte) (int, error) {
+	g.mu.Lock()
+	w := g.writes
+	g.mu.Unlock()
+	if w >= 1 {
+		<-g.gate
+	}
+	return g.memConn.Read(p)
+}
+
 type readConn struct {
 	memConn
 	r io.Reader
@@ -534,6 +561,95 @@ func TestGenC16(t *testing.T) {
 				}
 			}
 		}
+	}
+
+	// (1b) the last handshake act and the peer's first record arrive together: the party that writes the last act
+	// (client in XX, server in KK) sends a record at once, and the reader of that act only gets to read when both
+	// are already in its stream. The record must come out of the secured connection.
+	for ci := 0; ci < scale(6, 40); ci++ {
+		rr := r.sub(660000 + ci)
+		kk := ci%2 == 1
+		skI, skR := privFromRng(rr), privFromRng(rr)
+		pass := rr.bytes(14)
+		var remI, remR *btcec.PublicKey
+		if kk {
+			remI, remR = skR.PubKey(), skI.PubKey()
+		}
+		cd := mailbox.NewConnData(keyECDH(skI), remI, pass, nil, nil, nil)
+		sd := mailbox.NewConnData(keyECDH(skR), remR, pass, []byte("macaroon"), nil, nil)
+		ca, cb, _, _ := memPair()
+		gate := make(chan struct{})
+		var cConn, sConn net.Conn = ca, cb
+		if kk {
+			cConn = &gatedConn{memConn: ca, gate: gate} // the client reads act two only after the gate opens
+		} else {
+			sConn = &gatedConn{memConn: cb, gate: gate} // the server reads act three only after the gate opens
+		}
+		msg := rr.bytes(1 + rr.intn(300))
+		var cs, ss net.Conn
+		var ce, se error
+		var wg sync.WaitGroup
+		wg.Add(2)
+		go func() {
+			defer wg.Done()
+			cs, _, ce = mailbox.NewNoiseGrpcConn(cd).ClientHandshake(context.Background(), "", cConn)
+			if !kk && ce == nil {
+				_, ce = cs.Write(msg)
+				close(gate)
+			}
+		}()
+		go func() {
+			defer wg.Done()
+			ss, _, se = mailbox.NewNoiseGrpcConn(sd).ServerHandshake(sConn)
+			if kk && se == nil {
+				_, se = ss.Write(msg)
+				close(gate)
+			}
+		}()
+		done := make(chan struct{})
+		go func() { wg.Wait(); close(done) }()
+		got := []byte(nil)
+		var rerr error
+		select {
+		case <-done:
+			rd := ss
+			if kk {
+				rd = cs
+			}
+			if ce == nil && se == nil && rd != nil {
+				buf := make([]byte, 400)
+				rc := make(chan struct{})
+				go func() {
+					defer close(rc)
+					for len(got) < len(msg) && rerr == nil {
+						var k int
+						k, rerr = rd.Read(buf)
+						got = append(got, buf[:k]...)
+					}
+				}()
+				select {
+				case <-rc:
+				case <-time.After(3 * time.Second):
+					rerr = fmt.Errorf("read did not return within 3 s")
+					ca.Close()
+					cb.Close()
+				}
+			}
+		case <-time.After(5 * time.Second):
+			ce = fmt.Errorf("handshake did not return within 5 s")
+			select {
+			case <-gate:
+			default:
+				close(gate)
+			}
+			ca.Close()
+			cb.Close()
+		}
+		q.check(ce == nil && se == nil && rerr == nil && bytes.Equal(got, msg), "c16:record-right-behind-the-last-act", func() string {
+			return fmt.Sprintf("case %d (%s): the first record (%d bytes) is in the stream before the last act is read: handshake errors %v / %v, read error %v, got %d bytes",
+				ci, map[bool]string{false: "XX", true: "KK"}[kk], len(msg), ce, se, rerr, len(got))
+		})
+		q.stat("act_and_record_together_cases", 1)
 	}
 
 	// (2) Flush against a writer that accepts part of the record and times out
